@@ -46,6 +46,21 @@ use crate::ext::asm_errors as asm; use crate::ext::ed25519_dalek; use crate::ext
               'enum DecodeError', 'enum EncodeError'):
         er.item(t)
 
+    er.spec('''
+pub open spec fn err_plain<E>(e: OpError<E>) -> bool { !(e is Compute) && !(e is StateRead) }
+impl<E> vstd::std_specs::convert::FromSpecImpl<StateReadArgError> for OpError<E> {
+    open spec fn obeys_from_spec() -> bool { true }
+    open spec fn from_spec(e: StateReadArgError) -> Self { match e { StateReadArgError::Memory(m) => OpError::Memory(m), StateReadArgError::Stack(s) => OpError::Stack(s) } } }
+impl<E> vstd::std_specs::convert::FromSpecImpl<core::convert::Infallible> for OpError<E> {
+    open spec fn obeys_from_spec() -> bool { false }
+    open spec fn from_spec(e: core::convert::Infallible) -> Self { OpError::PcOverflow } }
+''')
+    er.impl('impl<E> From<core::convert::Infallible> for OpError<E>', [
+        F('from', mode='assumed', note='D3: zero-arm match on an uninhabited argument (Verus: not yet implemented); can never be called', props=('C05',))])
+    er.impl('impl<E> From<StateReadArgError> for OpError<E>', [F('from', ensures='err_plain(r)', props=('C05', 'C11'))])
+    er.impl('impl<E> OpError<E>', [
+        F('from_infallible', requires='err_plain(value)', ensures='err_plain(r)', props=('C05',))])
+
     # ------------------------------------------------------------------ essential-vm: stack
     st = u.module('stack', file='crates/vm/src/stack.rs', uses='''
 use crate::essential_types::Word; use crate::error::{LenWordsError, StackError, StackResult};
@@ -80,8 +95,10 @@ broadcast use {crate::iter_items_array, crate::iter_items_vec};
         if nin == 8:
             call_req = 'forall|a: [Word; 8]| a@ == old(self)@.subrange(old(self)@.len() - 8, old(self)@.len() as int) ==> f.requires((a,))'
             ens_call = 'exists|a: [Word; 8], fr: Result<Word, E>| a@ == old(self)@.subrange(old(self)@.len() - 8, old(self)@.len() as int) && #[trigger] f.ensures((a,), fr) && '
+            err_call = 'exists|a: [Word; 8]| a@ == old(self)@.subrange(old(self)@.len() - 8, old(self)@.len() as int) && #[trigger] f.ensures((a,), Err::<%s, E>(e))'
         else:
             call_req = 'f.requires((%s,))' % args
+            err_call = 'f.ensures((' + args + ',), Err::<%s, E>(e))'
             ens_call = 'exists|fr: Result<%s, E>| #[trigger] f.ensures((%s,), fr) && ' % ('Word' if nout == 1 else '[Word; %d]' % nout, args)
         if nout == 1:
             okcase = 'Ok(x) => (t.len() < 4096 ==> r is Ok && final(self)@ =~= t.push(x)) && (t.len() >= 4096 ==> r is Err)'
@@ -93,7 +110,8 @@ broadcast use {crate::iter_items_array, crate::iter_items_vec};
         return F(name, requires=WF + ', old(self)@.len() >= %d ==> %s' % (n, call_req),
                  ensures=WFE + """,
             old(self)@.len() < %d ==> r is Err,
-            old(self)@.len() >= %d ==> ({ let t = old(self)@.take(old(self)@.len() - %d); %s match fr { %s, Err(e) => r is Err } })""" % (n, n, n, ens_call, okcase),
+            old(self)@.len() >= %d ==> ({ let t = old(self)@.take(old(self)@.len() - %d); %s match fr { %s, Err(e) => r == Err::<(), E>(e) } }),
+            r matches Err(e) ==> (exists|se: StackError| vstd::std_specs::control_flow::spec_from::<E, StackError>(se, e)) || (%s)""" % (n, n, n, ens_call, okcase, err_call % ('Word' if nout == 1 else '[Word; %d]' % nout)),
                  rewrites=rw, props=('C05', 'C08'))
 
     LW_REQ = WF + ', crate::lw_ok(old(self)@) ==> forall|sl: &[Word]| sl@ == crate::lw_words(old(self)@) ==> f.requires((sl,))'
@@ -133,8 +151,28 @@ broadcast use {crate::iter_items_array, crate::iter_items_vec};
         F('pop_len_words', requires=LW_REQ, ensures=WFE + """,
             !crate::lw_ok(old(self)@) ==> r is Err && final(self)@ == old(self)@,
             crate::lw_ok(old(self)@) ==> exists|sl: &[Word], fr: Result<O, E>| sl@ == crate::lw_words(old(self)@) && #[trigger] f.ensures((sl,), fr)
-                && match fr { Ok(o) => r == Ok::<O, E>(o) && final(self)@ =~= crate::lw_rest(old(self)@), Err(e) => r is Err && final(self)@ == old(self)@ }""",
+                && match fr { Ok(o) => r == Ok::<O, E>(o) && final(self)@ =~= crate::lw_rest(old(self)@), Err(e) => r == Err::<O, E>(e) && final(self)@ == old(self)@ },
+            r matches Err(e) ==> (exists|se: StackError| vstd::std_specs::control_flow::spec_from::<E, StackError>(se, e))
+                || (exists|sl: &[Word]| sl@ == crate::lw_words(old(self)@) && #[trigger] f.ensures((sl,), Err::<O, E>(e)))""",
           rewrites=[('R7', 'map_err(StackError::LenWords)', 'map_err(|e| StackError::LenWords(e))')], props=('C05', 'C08')),
+        F('pop_words', requires=WF + ', num_words <= old(self)@.len() ==> forall|sl: &[Word]| sl@ == old(self)@.skip(old(self)@.len() - num_words) ==> f.requires((sl,))',
+          ensures=WFE + """,
+            num_words > old(self)@.len() ==> r is Err && final(self)@ == old(self)@,
+            num_words <= old(self)@.len() ==> exists|sl: &[Word], fr: Result<O, E>| sl@ == old(self)@.skip(old(self)@.len() - num_words) && #[trigger] f.ensures((sl,), fr)
+                && match fr { Ok(o) => r == Ok::<O, E>(o) && final(self)@ =~= old(self)@.take(old(self)@.len() - num_words), Err(e) => r == Err::<O, E>(e) && final(self)@ == old(self)@ },
+            r matches Err(e) ==> (exists|se: StackError| vstd::std_specs::control_flow::spec_from::<E, StackError>(se, e))
+                || (exists|sl: &[Word]| sl@ == old(self)@.skip(old(self)@.len() - num_words) && #[trigger] f.ensures((sl,), Err::<O, E>(e)))""",
+          rewrites=[('R7', 'map_err(StackError::LenWords)', 'map_err(|e| StackError::LenWords(e))')], props=('C05', 'C08', 'C12')),
+        F('pop_len_words2', requires=WF + """, crate::lw_ok(old(self)@) && crate::lw_ok(crate::lw_rest(old(self)@)) ==> forall|l: &[Word], rr: &[Word]|
+                rr@ == crate::lw_words(old(self)@) && l@ == crate::lw_words(crate::lw_rest(old(self)@)) ==> f.requires((l, rr))""",
+          ensures=WFE + """,
+            !(crate::lw_ok(old(self)@) && crate::lw_ok(crate::lw_rest(old(self)@))) ==> r is Err && final(self)@ == old(self)@,
+            crate::lw_ok(old(self)@) && crate::lw_ok(crate::lw_rest(old(self)@)) ==> exists|l: &[Word], rr: &[Word], fr: Result<O, E>|
+                rr@ == crate::lw_words(old(self)@) && l@ == crate::lw_words(crate::lw_rest(old(self)@)) && #[trigger] f.ensures((l, rr), fr)
+                && match fr { Ok(o) => r == Ok::<O, E>(o) && final(self)@ =~= crate::lw_rest(crate::lw_rest(old(self)@)), Err(e) => r == Err::<O, E>(e) && final(self)@ == old(self)@ }""",
+          rewrites=[('R7', 'let (rest, rhs) = slice_split_len_words(self).map_err(StackError::LenWords)?;', 'let (rest, rhs) = slice_split_len_words(self).map_err(|e| StackError::LenWords(e))?;'),
+                    ('R7', 'let (rest, lhs) = slice_split_len_words(rest).map_err(StackError::LenWords)?;', 'let (rest, lhs) = slice_split_len_words(rest).map_err(|e| StackError::LenWords(e))?;')],
+          props=('C05', 'C08')),
     ])
     st.fn('slice_split_len_words', F('slice_split_len_words', ensures="""
             crate::lw_ok(slice@) ==> r is Ok && r->Ok_0.0@ =~= crate::lw_rest(slice@) && r->Ok_0.1@ =~= crate::lw_words(slice@),
@@ -154,6 +192,7 @@ broadcast use {crate::iter_items_array, crate::iter_items_vec};
     me = u.module('memory', file='crates/vm/src/memory.rs', uses='use crate::essential_types::Word; use crate::error::MemoryError; use crate::*;')
     me.item('struct Memory')
     me.spec('''impl View for Memory { type V = Seq<i64>; closed spec fn view(&self) -> Seq<i64> { self.0@ } }
+impl Memory { pub open spec fn load_spec(&self, address: i64) -> Option<i64> { if 0 <= address < self@.len() { Some(self@[address as int]) } else { None } } }
 // T-std: #[derive(Default)] on a struct of Vecs yields empty Vecs
 pub assume_specification [<Memory as core::default::Default>::default] () -> (r: Memory) ensures r@ =~= Seq::<i64>::empty();
 ''')
@@ -194,10 +233,10 @@ pub assume_specification [<Memory as core::default::Default>::default] () -> (r:
     me.impl('impl core::ops::Deref for Memory', [('type', 'Target'), F('deref', ensures='r@ == self@', props=('C05',))])
 
     # ------------------------------------------------------------------ alu
-    al = u.module('alu', file='crates/vm/src/alu.rs', uses='use crate::essential_types::Word; use crate::error::{AluError, OpResult}; use crate::*;')
+    al = u.module('alu', file='crates/vm/src/alu.rs', uses='use crate::essential_types::Word; use crate::error::{AluError, OpResult}; use crate::*; broadcast use crate::spec_from_is_from;')
 
     def alu(name, sp, **kw):
-        return F(name, ensures='match crate::%s(a, b) { Some(v) => r is Ok && r->Ok_0 == v, None => r is Err }' % sp, props=('C05', 'C08'), **kw)
+        return F(name, ensures='match crate::%s(a, b) { Some(v) => r is Ok && r->Ok_0 == v, None => r is Err }, r matches Err(e) ==> e is Alu' % sp, props=('C05', 'C08'), **kw)
     al.fn('add', alu('add', 'sp_add'))
     al.fn('sub', alu('sub', 'sp_sub'))
     al.fn('mul', alu('mul', 'sp_mul'))
@@ -208,11 +247,11 @@ pub assume_specification [<Memory as core::default::Default>::default] () -> (r:
     al.fn('arithmetic_shr', alu('arithmetic_shr', 'sp_shri'))
     al.item('const BITS_IN_WORD', rewrites=[('R11', 'const BITS_IN_WORD: Word = core::mem::size_of::<Word>() as Word * 8;',
         'exec const BITS_IN_WORD: Word ensures BITS_IN_WORD == 64 { core::mem::size_of::<Word>() as Word * 8 }')])
-    al.fn('check_shift_bounds', F('check_shift_bounds', ensures='0 <= b < 64 ==> r is Ok, !(0 <= b < 64) ==> r is Err', props=('C05', 'C08')))
+    al.fn('check_shift_bounds', F('check_shift_bounds', ensures='0 <= b < 64 ==> r is Ok, !(0 <= b < 64) ==> r is Err, r matches Err(e) ==> e is Alu', props=('C05', 'C08')))
 
     # ------------------------------------------------------------------ pred
-    pr = u.module('pred', file='crates/vm/src/pred.rs', uses='use crate::error::{OpError, OpResult, StackError}; use crate::essential_types::Word; use crate::*;')
-    pr.fn('eq_range', F('eq_range', requires='stack_wf(old(stack)@)', ensures="""stack_wf(final(stack)@),
+    pr = u.module('pred', file='crates/vm/src/pred.rs', uses='use crate::error::{OpError, OpResult, StackError}; use crate::essential_types::Word; use crate::*; use crate::sets::decode_set; use std::collections::HashSet; broadcast use crate::spec_from_is_from;')
+    pr.fn('eq_range', F('eq_range', requires='stack_wf(old(stack)@)', ensures="""stack_wf(final(stack)@), r matches Err(e) ==> crate::error::err_plain(e),
             match crate::sp_eq_range(old(stack)@) { Some(s) => r is Ok && final(stack)@ =~= s, None => r is Err }""",
           rewrites=[('R9', '|words| {', '''|words: &[Word]| -> (o: Result<bool, OpError>)
                 requires len <= words@.len(), ensures o == Ok::<bool, OpError>(words@.take(len as int) == words@.skip(len as int)) {''')],
@@ -225,9 +264,15 @@ pub assume_specification [<Memory as core::default::Default>::default] () -> (r:
                     assert(crate::lw_rest(t.push(double)) =~= t.take(base));''')],
           props=('C05', 'C08')))
 
+    pr.fn('eq_set', F('eq_set', mode='assumed', requires='stack_wf(old(stack)@)', ensures='stack_wf(final(stack)@), r matches Err(e) ==> crate::error::err_plain(e)',
+          note='decode_set is a from_fn closure with captured mutable state and HashSet<&[Word]> equality: outside Verus; Kani cannot run std HashSet. NOT VERIFIED: only the bound/err-class part of the contract is assumed, the set-equality result is not claimed',
+          props=('C05', 'C08')))
+    se = u.module('sets', file='crates/vm/src/sets.rs', uses='use crate::error::{DecodeError, OpResult, StackError}; use crate::essential_types::Word;')
+    se.fn('decode_set', F('decode_set', mode='external', note='only referenced from the external body of pred::eq_set'))
+
     # ------------------------------------------------------------------ repeat
     rp = u.module('repeat', file='crates/vm/src/repeat.rs', uses="""use crate::essential_types::{convert::bool_from_word, Word};
-use crate::error::{OpResult, RepeatError, RepeatResult, StackError}; use crate::*;""")
+use crate::error::{OpResult, RepeatError, RepeatResult, StackError}; use crate::*; broadcast use crate::spec_from_is_from;""")
     rp.item('struct Repeat')
     rp.item('struct Slot')
     rp.item('enum Direction')
@@ -240,7 +285,7 @@ pub assume_specification [<Repeat as core::default::Default>::default] () -> (r:
 """)
     RW, RWE = 'repeat_wf(old(self)@)', 'repeat_wf(final(self)@)'
     rp.fn('repeat', F('repeat', params={'repeat': 'repeat_'}, requires='stack_wf(old(stack)@), repeat_wf(old(repeat_)@)', ensures="""
-            stack_wf(final(stack)@), repeat_wf(final(repeat_)@),
+            stack_wf(final(stack)@), repeat_wf(final(repeat_)@), r matches Err(e) ==> crate::error::err_plain(e),
             match crate::sp_repeat_begin(pc as int, old(stack)@, old(repeat_)@) {
                 Some((s, rs)) => r is Ok && final(stack)@ =~= s && final(repeat_)@ =~= rs,
                 None => r is Err && final(repeat_)@ == old(repeat_)@ }""",
@@ -268,9 +313,9 @@ pub assume_specification [<Repeat as core::default::Default>::default] () -> (r:
     # ------------------------------------------------------------------ total_control_flow
     tc = u.module('total_control_flow', file='crates/vm/src/total_control_flow.rs', uses="""
 use crate::error::{OpError, OpResult, StackError, TotalControlFlowError}; use crate::{Gas, Stack};
-use crate::essential_types::convert::bool_from_word; use crate::*;""")
+use crate::essential_types::convert::bool_from_word; use crate::*; broadcast use crate::spec_from_is_from;""")
     tc.item('enum ProgramControlFlow')
-    tc.fn('jump_if', F('jump_if', requires='stack_wf(old(stack)@)', ensures="""stack_wf(final(stack)@),
+    tc.fn('jump_if', F('jump_if', requires='stack_wf(old(stack)@)', ensures="""stack_wf(final(stack)@), r matches Err(e) ==> crate::error::err_plain(e),
             old(stack)@.len() < 2 ==> r is Err,
             old(stack)@.len() >= 2 ==> ({ let n = old(stack)@.len() as int;
                 final(stack)@ =~= old(stack)@.take(n - 2) &&
@@ -280,16 +325,124 @@ use crate::essential_types::convert::bool_from_word; use crate::*;""")
                     Some(Some(p)) => r is Ok && r->Ok_0 == Some(ProgramControlFlow::Pc(p as usize)) } })""",
           rewrites=[('R2', 'let [dist, cond] = stack.pop2()?;', 'let t2 = stack.pop2()?; let dist = t2[0]; let cond = t2[1];')],
           props=('C05', 'C09')))
-    tc.fn('halt_if', F('halt_if', requires='stack_wf(old(stack)@)', ensures="""stack_wf(final(stack)@),
+    tc.fn('halt_if', F('halt_if', requires='stack_wf(old(stack)@)', ensures="""stack_wf(final(stack)@), r matches Err(e) ==> crate::error::err_plain(e),
             old(stack)@.len() < 1 ==> r is Err,
             old(stack)@.len() >= 1 ==> final(stack)@ =~= old(stack)@.drop_last() && match w2b(old(stack)@.last()) {
                 None => r is Err,
                 Some(false) => r is Ok && r->Ok_0 is None,
                 Some(true) => r is Ok && r->Ok_0 == Some(ProgramControlFlow::Halt) }""", props=('C05', 'C09')))
-    tc.fn('panic_if', F('panic_if', mode='assumed', requires='stack_wf(old(stack)@)', ensures="""stack_wf(final(stack)@),
+    tc.fn('panic_if', F('panic_if', mode='assumed', requires='stack_wf(old(stack)@)', ensures="""stack_wf(final(stack)@), r matches Err(e) ==> crate::error::err_plain(e),
             old(stack)@.len() < 1 ==> r is Err,
             old(stack)@.len() >= 1 ==> final(stack)@ =~= old(stack)@.drop_last() && match w2b(old(stack)@.last()) {
                 None => r is Err, Some(false) => r is Ok, Some(true) => r is Err }""",
           note='`.iter().copied()` is a provided trait method Verus cannot specify; Kani K2 through step_op_total_control_flow(PanicIf)',
           props=('C05', 'C09')))
+
+    # ------------------------------------------------------------------ sync dispatchers
+    sy = u.module('sync', file='crates/vm/src/sync.rs', uses="""
+use crate::{alu, asm, error::{OpError, OpResult, ParentMemoryError, err_plain}, pred, repeat, total_control_flow, Memory, ProgramControlFlow, Repeat, Stack};
+use crate::essential_asm; use crate::essential_types::Word; use crate::*; use std::sync::Arc;
+broadcast use {crate::spec_from_is_from, crate::iter_items_array, crate::iter_items_vec};""")
+    sy.spec("""
+pub open spec fn sp_alu(op: asm::Alu, a: i64, b: i64) -> Option<i64> { match op {
+    asm::Alu::Add => sp_add(a, b), asm::Alu::Sub => sp_sub(a, b), asm::Alu::Mul => sp_mul(a, b), asm::Alu::Div => sp_div(a, b),
+    asm::Alu::Mod => sp_mod(a, b), asm::Alu::Shl => sp_shl(a, b), asm::Alu::Shr => sp_shr(a, b), asm::Alu::ShrI => sp_shri(a, b) } }
+// binary predicate ops: [lhs, rhs] -> [result]
+pub open spec fn sp_pred2(op: asm::Pred, a: i64, b: i64) -> i64 { match op {
+    asm::Pred::Eq => b2w(a == b), asm::Pred::Gt => b2w(a > b), asm::Pred::Lt => b2w(a < b), asm::Pred::Gte => b2w(a >= b), asm::Pred::Lte => b2w(a <= b),
+    asm::Pred::And => b2w(a != 0 && b != 0), asm::Pred::Or => b2w(a != 0 || b != 0), asm::Pred::BitAnd => a & b, asm::Pred::BitOr => a | b,
+    _ => 0 } }
+pub open spec fn pred_is_binary(op: asm::Pred) -> bool { !(op is Not) && !(op is EqRange) && !(op is EqSet) }
+pub open spec fn sp_pred(op: asm::Pred, s: Seq<i64>) -> Option<Seq<i64>> {
+    let n = s.len() as int;
+    if op is EqRange { sp_eq_range(s) }
+    else if op is Not { if n >= 1 { Some(s.drop_last().push(b2w(s[n - 1] == 0))) } else { None } }
+    else if n >= 2 { Some(s.take(n - 2).push(sp_pred2(op, s[n - 2], s[n - 1]))) } else { None } }
+pub open spec fn sp_stack(op: asm::Stack, s: Seq<i64>) -> Option<Seq<i64>> { match op {
+    asm::Stack::Push(w) => sp_push(s, w), asm::Stack::Pop => sp_pop(s), asm::Stack::Dup => sp_dup(s), asm::Stack::DupFrom => sp_dup_from(s),
+    asm::Stack::Swap => sp_swap(s), asm::Stack::SwapIndex => sp_swap_index(s), asm::Stack::Select => sp_select(s),
+    asm::Stack::SelectRange => sp_select_range(s), asm::Stack::Reserve => sp_reserve(s), asm::Stack::Load => sp_load(s),
+    asm::Stack::Store => sp_store(s), asm::Stack::Drop => sp_drop(s), _ => None } }
+pub open spec fn sp_memory(op: asm::Memory, s: Seq<i64>, m: Seq<i64>) -> Option<(Seq<i64>, Seq<i64>)> { match op {
+    asm::Memory::Alloc => sp_mem_alloc(s, m), asm::Memory::Free => sp_mem_free(s, m), asm::Memory::Load => sp_mem_load(s, m),
+    asm::Memory::Store => sp_mem_store(s, m), asm::Memory::LoadRange => sp_mem_load_range(s, m), asm::Memory::StoreRange => sp_mem_store_range(s, m) } }
+""")
+    SW = 'stack_wf(old(stack)@)'
+    SWE = 'stack_wf(final(stack)@)'
+    sy.fn('step_op_alu', F('step_op_alu', requires=SW, ensures=SWE + """,
+            r matches Err(e) ==> err_plain(e),
+            old(stack)@.len() < 2 ==> r is Err,
+            old(stack)@.len() >= 2 ==> ({ let n = old(stack)@.len() as int;
+                match sp_alu(op, old(stack)@[n - 2], old(stack)@[n - 1]) {
+                    Some(v) => r is Ok && final(stack)@ =~= old(stack)@.take(n - 2).push(v),
+                    None => r is Err } })""", props=('C05', 'C08')))
+
+    def R9(params, body, typed, ret, ens):
+        return ('R9', '|%s| %s' % (params, body), '|%s| -> (o: %s) ensures %s { %s }' % (typed, ret, ens, body))
+    OW = 'OpResult<Word>'
+
+    def p2(expr, spec):
+        return R9('a, b', 'Ok(%s)' % expr, 'a: Word, b: Word', OW, 'o == Ok::<Word, OpError>(%s)' % spec)
+    sy.fn('step_op_pred', F('step_op_pred', requires=SW, ensures=SWE + """,
+            r matches Err(e) ==> err_plain(e),
+            !(op is EqSet) ==> match sp_pred(op, old(stack)@) { Some(s) => r is Ok && final(stack)@ =~= s, None => r is Err }""",
+        rewrites=[p2('(a == b).into()', 'b2w(a == b)'), p2('(a > b).into()', 'b2w(a > b)'), p2('(a < b).into()', 'b2w(a < b)'),
+                  p2('(a >= b).into()', 'b2w(a >= b)'), p2('(a <= b).into()', 'b2w(a <= b)'),
+                  p2('(a != 0 && b != 0).into()', 'b2w(a != 0 && b != 0)'), p2('(a != 0 || b != 0).into()', 'b2w(a != 0 || b != 0)'),
+                  R9('a', 'Ok((a == 0).into())', 'a: Word', OW, 'o == Ok::<Word, OpError>(b2w(a == 0))'),
+                  p2('a & b', 'a & b'), p2('a | b', 'a | b')],
+        props=('C05', 'C08')))
+
+    FROM_STACK = ('R7', '.map_err(From::from)', '.map_err(|e: crate::error::StackError| -> (o: OpError) ensures o == OpError::<core::convert::Infallible>::Stack(e) { From::from(e) })', 'all')
+    NONE_MAP = lambda before: ('R9', before, '.map(|_u: ()| -> (o: Option<ProgramControlFlow>) ensures o is None { None })')
+    sy.fn('step_op_stack', F('step_op_stack', requires=SW + ', repeat_wf(old(repeat)@)', ensures=SWE + """, repeat_wf(final(repeat)@),
+            r matches Err(e) ==> err_plain(e),
+            op is RepeatEnd ==> final(stack)@ == old(stack)@ && (old(repeat)@.len() == 0 ==> r is Err) && (old(repeat)@.len() > 0 ==> ({
+                let sl = old(repeat)@.last(); let rest = old(repeat)@.drop_last();
+                match sp_repeat_end(sl) {
+                    (None, _) => r is Ok && r->Ok_0 is None && final(repeat)@ =~= rest,
+                    (Some(sl2), _) => r is Ok && r->Ok_0 == Some(ProgramControlFlow::Pc(sl.start as usize)) && final(repeat)@ =~= rest.push(sl2) } })),
+            op is Repeat ==> match sp_repeat_begin(pc as int, old(stack)@, old(repeat)@) {
+                    Some((s, rs)) => r is Ok && r->Ok_0 is None && final(stack)@ =~= s && final(repeat)@ =~= rs,
+                    None => r is Err && final(repeat)@ == old(repeat)@ },
+            !(op is RepeatEnd) && !(op is Repeat) ==> final(repeat)@ == old(repeat)@ &&
+                match sp_stack(op, old(stack)@) { Some(s) => r is Ok && r->Ok_0 is None && final(stack)@ =~= s, None => r is Err }""",
+        rewrites=[('R7', '.map(ProgramControlFlow::Pc)', '.map(|p: usize| -> (o: ProgramControlFlow) ensures o == ProgramControlFlow::Pc(p) { ProgramControlFlow::Pc(p) })'),
+                  ('R9', '|_| Ok(())', '|_w: &[Word]| -> (o: OpResult<()>) ensures o is Ok { Ok(()) }'),
+                  R9('w', 'Ok([w, w])', 'w: Word', 'OpResult<[Word; 2]>', 'o is Ok && o->Ok_0@ == seq![w, w]'),
+                  R9('a, b', 'Ok([b, a])', 'a: Word, b: Word', 'OpResult<[Word; 2]>', 'o is Ok && o->Ok_0@ == seq![b, a]'),
+                  ('R9', '.map(|_| ())', '.map(|_w: Word| -> (o: ()) { () })'),
+                  FROM_STACK, NONE_MAP('.map(|_| None)')],
+        props=('C05', 'C08', 'C09')))
+    sy.fn('step_op_total_control_flow', F('step_op_total_control_flow', requires=SW, ensures=SWE + """,
+            r matches Err(e) ==> err_plain(e),
+            op is Halt ==> final(stack)@ == old(stack)@ && r is Ok && r->Ok_0 == Some(ProgramControlFlow::Halt),
+            !(op is Halt) && old(stack)@.len() < (if op is JumpIf { 2int } else { 1int }) ==> r is Err,
+            op is JumpIf && old(stack)@.len() >= 2 ==> ({ let n = old(stack)@.len() as int;
+                final(stack)@ =~= old(stack)@.take(n - 2) &&
+                match crate::sp_jump_target(pc as int, old(stack)@[n - 2], old(stack)@[n - 1]) {
+                    None => r is Err, Some(None) => r is Ok && r->Ok_0 is None,
+                    Some(Some(p)) => r is Ok && r->Ok_0 == Some(ProgramControlFlow::Pc(p as usize)) } }),
+            op is HaltIf && old(stack)@.len() >= 1 ==> final(stack)@ =~= old(stack)@.drop_last() && match w2b(old(stack)@.last()) {
+                None => r is Err, Some(false) => r is Ok && r->Ok_0 is None, Some(true) => r is Ok && r->Ok_0 == Some(ProgramControlFlow::Halt) },
+            op is PanicIf && old(stack)@.len() >= 1 ==> final(stack)@ =~= old(stack)@.drop_last() && match w2b(old(stack)@.last()) {
+                None => r is Err, Some(false) => r is Ok && r->Ok_0 is None, Some(true) => r is Err }""",
+        rewrites=[NONE_MAP('.map(|_| None)')], props=('C05', 'C09')))
+
+    def marm(name, sp, **kw):
+        return F(name, requires=SW + ', mem_wf(old(memory)@)', ensures=SWE + """, mem_wf(final(memory)@), r matches Err(e) ==> err_plain(e),
+            match crate::%s(old(stack)@, old(memory)@) { Some((s, m)) => r is Ok && final(stack)@ =~= s && final(memory)@ =~= m, None => r is Err }""" % sp,
+                 props=('C05', 'C08'), **kw)
+    sy.fn_r8('step_op_memory', F('step_op_memory', requires=SW + ', mem_wf(old(memory)@)', ensures=SWE + """, mem_wf(final(memory)@),
+            r matches Err(e) ==> err_plain(e),
+            match sp_memory(op, old(stack)@, old(memory)@) { Some((s, m)) => r is Ok && final(stack)@ =~= s && final(memory)@ =~= m, None => r is Err }""",
+        props=('C05', 'C08')), {
+        'Alloc': marm('step_op_memory__Alloc', 'sp_mem_alloc'),
+        'Store': marm('step_op_memory__Store', 'sp_mem_store', rewrites=[('R2', 'let [w, addr] = stack.pop2()?;', 'let t2 = stack.pop2()?; let w = t2[0]; let addr = t2[1];')]),
+        'Load': marm('step_op_memory__Load', 'sp_mem_load', rewrites=[('R9', '|addr| {', '|addr: Word| -> (o: OpResult<Word>) ensures match memory.load_spec(addr) { Some(w) => o == Ok::<Word, OpError>(w), None => o matches Err(e) && e is Memory } {')]),
+        'Free': marm('step_op_memory__Free', 'sp_mem_free'),
+        'LoadRange': marm('step_op_memory__LoadRange', 'sp_mem_load_range', rewrites=[('R2', 'let [addr, size] = stack.pop2()?;', 'let t2 = stack.pop2()?; let addr = t2[0]; let size = t2[1];')]),
+        'StoreRange': marm('step_op_memory__StoreRange', 'sp_mem_store_range', mode='assumed',
+                           note='closure captures `memory` mutably (Verus: unsupported); callees pop_len_words and Memory::store_range are verified; composition is Kani K2'),
+    })
     return u
